@@ -387,9 +387,11 @@ theorem sigRegLoop_enc (O : Oracle) (post : Bytes) : ‚àÄ (xs : List (SingleSig √
       (fun y hy => hrt y (List.mem_cons_of_mem _ hy)) (by rw [‚Üê e]; exact hlen)
     rw [‚Üê e, show (pre ++ encItem sr).length = pre.length + 8 + (encSigReg sr).length by
       rw [List.length_append, encItem_length]; omega] at hrec
+    have hpre : isCborPrefix (encSigReg sr) = false :=
+      isCborPrefix_be8 (encReg sr.2).length _ (by rw [encReg_length, hr.1]; decide)
     simp only [List.length_cons, sigRegLoop]
     rw [addChecked_ok (by omega), bind_ok, h0, ofOption_some, bind_ok, beU64_be8 _ (by omega),
-      addChecked_ok (by omega), bind_ok, h2, ofOption_some, bind_ok,
+      addChecked_ok (by omega), bind_ok, h2, ofOption_some, bind_ok, hpre, if_neg Bool.false_ne_true,
       sigReg_enc O sr.1 sr.2 hs hr (hrt sr List.mem_cons_self) (by show (encSigReg sr).length < 2^63; omega), bind_ok, hrec, bind_ok]
     simp
 
